@@ -17,14 +17,15 @@ int main(int argc, char** argv)
 	Args a(argc, argv);
 	std::string c = a.kase;
 	// abstract state of the counterexample, scaled to a realisable buffer when huge
-	uint64_t len = a.u64("streamSize", 8), pos = a.u64("position", 0);
-	if (a.has("offset") && c.find("MemoryWriter") == 0) pos = a.u64(".offset", 0);
+	bool isw = c.find("MemoryWriter") == 0;
+	uint64_t len = a.u64("streamSize", 8), pos = isw ? a.u64(".offset", 0) : a.u64("position", 0);
+	const uint64_t olen = len, opos = pos;
 	uint64_t arg0 = a.u64("a_size", a.u64("a_offset", 0));
 	bool wraps = (unsigned __int128)pos + arg0 > UINT64_MAX;      // the arithmetic condition of the counterexample
 	uint64_t wrapped = pos + arg0;
 	if (len > CAP) { uint64_t rem = len - pos; len = CAP; pos = rem > len ? 0 : len - rem; }
 	if (pos > len) pos = len;
-	if (wraps) {   // nearest realisable shape: keep "pos + arg wraps to a value <= len"
+	if (wraps && !(isw && c.find("SeekBackward") != std::string::npos)) {   // nearest realisable shape: keep "pos + arg wraps to a value <= len"
 		if (pos == 0) pos = 1;
 		if (len == 0) len = 1;
 		if (wrapped > len) wrapped = len;
@@ -97,6 +98,14 @@ int main(int argc, char** argv)
 			if (threw == fits) confirmed("Write(%llu) with %llu free: threw=%d", (unsigned long long)n, (unsigned long long)(len - pos), threw);
 			if (w.Position() != pos + (threw ? 0 : n)) confirmed("position after Write is %llu", (unsigned long long)w.Position());
 		} else {
+			if (op != "Seek") {
+				// nearest realisable shape for a wrapped relative seek: keep "the wrapped target lies inside the buffer"
+				if (op == "SeekBackward") {
+					uint64_t oarg = a.u64("a_offset", 0);
+					uint64_t t = opos - oarg;
+					if (oarg > opos && t <= olen) { uint64_t t2 = t > len ? len : t; n = pos - t2; }
+				}
+			}
 			bool ok = op == "Seek" ? n <= len : op == "SeekForward" ? n <= len - pos : n <= pos;
 			uint64_t want = !ok ? pos : op == "Seek" ? n : op == "SeekForward" ? pos + n : pos - n;
 			try { if (op == "Seek") w.Seek(n); else if (op == "SeekForward") w.SeekForward(n); else w.SeekBackward(n); } catch (const std::exception&) { threw = true; }
